@@ -234,6 +234,7 @@ ADD5 = {
     "C10": ("; fresh-storage rule for list filters shared with C03.R6; origin audit of the listing the client's ReferrerList returns", " Also: a filtered query builds its answer in fresh storage; every ReferrerList call of the client is answered by a scheme call made by that very call."),
     "C11": ("; value audit of the descriptor given to the target's existence test shared with C03.R7", " Also: the target's login is not offered to the hosts named in a layer's external URLs by the existence test of BlobCopy."),
     "C12": ("; rewindable upload source shared with C05.R6; must-not-reach of the host-drop flag from the failure edge of the HTTP round trip", " Also: a transport failure is retried on the same host after the backoff."),
+    "C13": ("; origin audit of the compressor's input against the digest tee", " Also: where the diff-id digester is fed by a tee and the stream goes on to the compressor, nothing sits between the two."),
     "C14": ("; syntax audit for link-refusing file calls in the layout scheme (expected count zero, positive example in the self-test)", " Also: the layout's existence tests follow links as its reads do."),
     "C16": ("; data-dependence audit of values a function literal remembers across its calls", " Also: a value remembered by a per-image step (the rebase bases) does not depend on the image it was computed for."),
     "C17": ("; sync.Map variant of the throttle-table rule", " Also: a sync.Map of queues is only filled with LoadOrStore."),
